@@ -330,6 +330,12 @@ def cases(tier, seed):
 
 
 # ------------------------------------------------------------------ expectations
+def plot_name(i):
+    """Names of the plots: base names that end in the characters of ".pdf" are names like any
+    other (p1_pdf.pdf -> p1_pdf.png)."""
+    return "p%d%s" % (i, ("", "_pdf", "d", ".f")[i % 4])
+
+
 def hist_bins(i, version):
     return [version + 100 * i, 1 + i, 2]
 
@@ -441,7 +447,7 @@ class World(object):
         elif self.set["defname"]:
             name = "myout"
         else:
-            name = "p%s" % who
+            name = plot_name(int(who))
         return os.path.join(self.out, self.sub, name + "." + kind)
 
     def chains(self):
@@ -458,10 +464,10 @@ class World(object):
         import lena.structures
         if self.pipe == "direct":
             return [(self.path_of("tex%d" % i),
-                     {"output": {"filetype": "tex"}, "plot": {"name": "p%d" % i}})
+                     {"output": {"filetype": "tex"}, "plot": {"name": plot_name(i)}})
                     for i in range(self.n)]
         fl = [(lena.structures.histogram(list(HIST_EDGES), hist_bins(i, self.versions[i])),
-               {"plot": {"name": "p%d" % i}, "grp": "g"}) for i in range(self.n)]
+               {"plot": {"name": plot_name(i)}, "grp": "g"}) for i in range(self.n)]
         if self.set["extra"]:
             # bystanders: a bare number, a string that must not be written, and a text
             # that the first Write writes and the second Write must recognise as written
@@ -481,7 +487,7 @@ class World(object):
         key, csvs = chain[0], chain[1]
         if self.pipe == "single":
             i = int(key)
-            ctx = {"plot": {"name": "p%d" % i}, "grp": "g",
+            ctx = {"plot": {"name": plot_name(i)}, "grp": "g",
                    "output": {"filepath": self.path_of(csvs[0])}}
         else:
             ctx = {"grp": "g", "group": [{"output": {"filepath": self.path_of(c)}}
